@@ -7,6 +7,7 @@
 #include "caseio.hpp"
 
 #include <micm/process/arrhenius_rate_constant.hpp>
+#include <micm/process/troe_rate_constant.hpp>
 #include <micm/process/user_defined_rate_constant.hpp>
 #include <micm/solver/backward_euler.hpp>
 #include <micm/solver/rosenbrock.hpp>
@@ -40,7 +41,7 @@ namespace simpl
   {
     std::vector<std::pair<int, bool>> reactants;          // species name id, parameterised?
     std::vector<std::tuple<int, bool, double>> products;  // name id, parameterised?, yield
-    int kind = 0;                                         // 0 user-defined (custom parameter), 1 Arrhenius(A)
+    int kind = 0;                                         // 0 user-defined (custom parameter), 1 Arrhenius(A), 2 Troe
   };
 
   struct Mech
@@ -48,6 +49,19 @@ namespace simpl
     std::vector<int> names;  // state species, canonical order (index = canonical id)
     std::vector<double> atol;  // < 0: no "absolute tolerance" property
     std::vector<Rxn> rxns;
+    // when some species carries a tolerance, the system also gets a second phase "aq" holding an inert species with
+    // the bare name of the first gas species (tolerance 7e-5) and an inert species "w" (tolerance 3e-9)
+    bool other_phase() const
+    {
+      for (double a : atol)
+        if (a >= 0)
+          return true;
+      return false;
+    }
+    std::size_t extra() const
+    {
+      return other_phase() ? 2 : 0;
+    }
   };
 
   struct Config
@@ -72,6 +86,11 @@ namespace simpl
     double h_start = 0;
     bool clamp = true;      // Solver::Solve(dt, state) (clamps) vs the overload with parameters (does not)
     bool poison = false;    // fill every scratch member of the State with garbage before each Solve
+    std::vector<double> density_factor;  // per cell, multiplies the ideal air density (empty: 1 everywhere)
+    double density(std::size_t cell) const
+    {
+      return cell < density_factor.size() ? density_factor[cell] : 1.0;
+    }
   };
 
   struct Outcome
@@ -82,6 +101,7 @@ namespace simpl
     std::vector<double> rate_constants;       // [cell][reaction] after CalculateRateConstants
     std::vector<double> atol;                 // by canonical species
     bool map_ok = true;
+    bool other_phase_ok = true;
     std::size_t be_clipped = 0;               // values backward Euler clipped to zero during the solves (hook)
   };
 
@@ -135,7 +155,7 @@ namespace simpl
   {
     micm::Species s("s" + std::to_string(name));
     if (param)
-      s.parameterize_ = [](const micm::Conditions&) { return 1.0; };
+      s.parameterize_ = [](const micm::Conditions& cd) { return cd.air_density_ / 32.0; };  // ~ 1 at 300 K, 1 atm
     if (atol >= 0)
       s.SetProperty("absolute tolerance", atol);
     return s;
@@ -219,7 +239,13 @@ namespace simpl
     for (int pn : params)
       listed.push_back(mk_species(pn, true));
     micm::Phase gas{ listed };
-    sys = micm::System(micm::SystemParameters{ .gas_phase_ = gas });
+    if (m.other_phase())
+    {
+      micm::Phase aq{ std::vector<micm::Species>{ mk_species(m.names[0], false, 7.0e-5), [] { micm::Species w("w"); w.SetProperty("absolute tolerance", 3.0e-9); return w; }() } };
+      sys = micm::System(micm::SystemParameters{ .gas_phase_ = gas, .phases_ = { { "aq", aq } } });
+    }
+    else
+      sys = micm::System(micm::SystemParameters{ .gas_phase_ = gas });
     procs.clear();
     for (std::size_t r = 0; r < m.rxns.size(); ++r)
     {
@@ -234,6 +260,12 @@ namespace simpl
                             .SetReactants(reactants)
                             .SetProducts(products)
                             .SetRateConstant(micm::UserDefinedRateConstant({ .label_ = "k" + std::to_string(r) }))
+                            .SetPhase(gas));
+      else if (m.rxns[r].kind == 2)
+        procs.push_back(micm::Process::Create()
+                            .SetReactants(reactants)
+                            .SetProducts(products)
+                            .SetRateConstant(micm::TroeRateConstant({ .k0_A_ = 0.05, .kinf_A_ = 4.0 }))  // depends on the air density
                             .SetPhase(gas));
       else
         procs.push_back(micm::Process::Create()
@@ -263,13 +295,22 @@ namespace simpl
       auto state = solver.GetState();
       using StateT = decltype(state);
       // the name -> index map must be a bijection onto 0..N-1 that agrees with variable_names_
-      std::vector<int> seen(ns, 0);
-      if (state.variable_map_.size() != ns || state.variable_names_.size() != ns)
+      const std::size_t nvar = ns + m.extra();
+      std::vector<int> seen(nvar, 0);
+      if (state.variable_map_.size() != nvar || state.variable_names_.size() != nvar)
         o.map_ok = false;
       for (auto& kv : state.variable_map_)
       {
-        if (kv.second >= ns || seen[kv.second]++ || state.variable_names_[kv.second] != kv.first)
+        if (kv.second >= nvar || seen[kv.second]++ || state.variable_names_[kv.second] != kv.first)
           o.map_ok = false;
+      }
+      if (m.other_phase())
+      {
+        // the other phase's species are addressed by their unique names and keep their own tolerances
+        auto i1 = state.variable_map_.find("aq.s" + std::to_string(m.names[0]));
+        auto i2 = state.variable_map_.find("aq.w");
+        o.other_phase_ok = i1 != state.variable_map_.end() && i2 != state.variable_map_.end() &&
+                           state.absolute_tolerance_[i1->second] == 7.0e-5 && state.absolute_tolerance_[i2->second] == 3.0e-9;
       }
       o.atol.assign(ns, 0);
       for (std::size_t id = 0; id < ns; ++id)
@@ -286,6 +327,7 @@ namespace simpl
         state.conditions_[cidx].temperature_ = pb.T;
         state.conditions_[cidx].pressure_ = pb.P;
         state.conditions_[cidx].CalculateIdealAirDensity();
+        state.conditions_[cidx].air_density_ *= pb.density(cidx);
       }
       for (std::size_t id = 0; id < ns; ++id)
       {
@@ -481,8 +523,13 @@ namespace simpl
       if (m.rxns[i % nr].kind == 0 && !std::isfinite(pb.k[i]))
         inputs_finite = false;  // only user-defined rate constants read the custom parameter
     for (auto& r : m.rxns)
-      if (r.kind == 1 && !(pb.T > 0))
-        inputs_finite = false;  // unset conditions give NaN Arrhenius rate constants
+    {
+      if (r.kind != 0 && !(pb.T > 0))
+        inputs_finite = false;  // unset conditions give NaN Arrhenius / Troe rate constants
+      for (auto& q : r.reactants)
+        if (q.second && !(pb.T > 0))
+          inputs_finite = false;  // ... and a non-finite air density for the third bodies
+    }
     // moderate problems only for the conservation clause (the allowed drift scales with stiffness)
     bool moderate = true;
     for (double x : pb.y0)
@@ -518,6 +565,8 @@ namespace simpl
         if (o.atol[id] != expect)
           out.tok("ORACLE_TOLERANCE_NOT_BY_NAME");
       }
+      if (!o.other_phase_ok)
+        out.tok("ORACLE_TOLERANCE_NOT_BY_NAME:other_phase");
       // C10
       bool all_converged = true;
       for (auto& r : o.results)
@@ -697,9 +746,11 @@ namespace simpl
       for (std::size_t pos = 0; pos < N; pos += std::max<std::size_t>(1, N - 1))
       {
         Problem mixed = many;
+        mixed.density_factor.assign(N, 1.0);
         for (std::size_t cidx = 0; cidx < N; ++cidx)
           if (cidx != pos)
           {
+            mixed.density_factor[cidx] = 1.5 + 0.25 * (double)(cidx % 3);
             for (std::size_t id = 0; id < ns; ++id)
               mixed.y0[cidx * ns + id] = oy[id];
             for (std::size_t r = 0; r < nr; ++r)
@@ -728,7 +779,11 @@ namespace simpl
     std::vector<micm::Process> procs;
     make_system(m, c, sys, procs);
     const std::size_t ns = m.names.size();
-    auto solver = Builder(make_params(pbs[0]))
+    // the solver (and therefore the scratch of its States) is built for the largest parameter set; every problem is
+    // then solved with its own parameter set through the overload of Solve that takes parameters, half of the time
+    Problem widest = pbs[0];
+    widest.table = 4;
+    auto solver = Builder(make_params(widest))
                       .SetSystem(sys)
                       .SetReactions(procs)
                       .SetNumberOfGridCells((int)pbs[0].ncells)
@@ -744,6 +799,7 @@ namespace simpl
         st.conditions_[cidx].temperature_ = pb.T;
         st.conditions_[cidx].pressure_ = pb.P;
         st.conditions_[cidx].CalculateIdealAirDensity();
+        st.conditions_[cidx].air_density_ *= pb.density(cidx);
       }
       for (std::size_t id = 0; id < ns; ++id)
       {
@@ -770,19 +826,23 @@ namespace simpl
     };
     for (std::size_t i = 0; i < pbs.size(); ++i)
     {
-      const auto& pb = pbs[i];
+      Problem pb = pbs[i];
+      // consecutive problems differ in air density even when their temperature and pressure coincide
+      pb.density_factor.assign(pb.ncells, 1.0 + 0.5 * (double)(i % 2));
       auto fresh = solver.GetState();
       load(fresh, pb);
       solver.CalculateRateConstants(fresh);
       std::vector<micm::SolverResult> rf, rs;
+      const bool own_params = (i % 2 == 1);
+      const auto params_i = make_params(pb);
       for (int s = 0; s < pb.nsteps; ++s)
-        rf.push_back(solver.Solve(pb.dt, fresh));
+        rf.push_back(own_params ? solver.Solve(pb.dt, fresh, params_i) : solver.Solve(pb.dt, fresh, make_params(widest)));
       load(shared, pb);
       solver.CalculateRateConstants(shared);
       for (int s = 0; s < pb.nsteps; ++s)
       {
         poison_state<StateT, DM>(shared);
-        rs.push_back(solver.Solve(pb.dt, shared));
+        rs.push_back(own_params ? solver.Solve(pb.dt, shared, params_i) : solver.Solve(pb.dt, shared, make_params(widest)));
       }
       out.tok(state_name(rf.back().state_));
       for (std::size_t s = 0; s < rf.size(); ++s)
@@ -855,6 +915,126 @@ namespace simpl
     }
   }
 
+  // -------------------------------------------------------------------------------------
+  // scenario "acc": accuracy on a problem with a known solution (C08)
+  //   acc L csc lu ncells table rtol dt h_start k1[ncells] k2[ncells] a0[ncells]
+  // The chain A -> B -> C with per-cell rate constants k1 != k2 (well separated), B(0) = C(0) = 0.
+  //   Rosenbrock: a Converged result differs from the Bateman solution by a modest multiple of (atol + rtol |y|)
+  //               per accepted step;
+  //   backward Euler: the result is the composition of the closed-form implicit-Euler maps for the step sizes the
+  //               configured controller prescribes (every step of a linear problem converges).
+  // -------------------------------------------------------------------------------------
+  inline void scenario_acc(Toks& tk, Out& out)
+  {
+    Config c;
+    c.L = (int)tk.i();
+    c.csc = tk.i() != 0;
+    c.lu = (int)tk.i();
+    c.reorder = true;
+    c.order = { 0, 1, 2 };
+    Problem pb;
+    pb.ncells = tk.i();
+    pb.table = (int)tk.i();
+    pb.rtol = tokd(tk);
+    pb.dt = tokd(tk);
+    pb.h_start = tokd(tk);
+    pb.nsteps = 1;
+    pb.clamp = false;
+    std::vector<double> k1, k2, a0;
+    for (std::size_t i = 0; i < pb.ncells; ++i)
+      k1.push_back(tokd(tk));
+    for (std::size_t i = 0; i < pb.ncells; ++i)
+      k2.push_back(tokd(tk));
+    for (std::size_t i = 0; i < pb.ncells; ++i)
+      a0.push_back(tokd(tk));
+    const double atol = 1.0e-13;
+    Mech m;
+    m.names = { 1, 2, 3 };
+    m.atol = { atol, atol, atol };
+    Rxn r1, r2;
+    r1.reactants = { { 1, false } };
+    r1.products = { std::make_tuple(2, false, 1.0) };
+    r2.reactants = { { 2, false } };
+    r2.products = { std::make_tuple(3, false, 1.0) };
+    m.rxns = { r1, r2 };
+    for (std::size_t i = 0; i < pb.ncells; ++i)
+    {
+      pb.y0.push_back(a0[i]);
+      pb.y0.push_back(0.0);
+      pb.y0.push_back(0.0);
+      pb.k.push_back(k1[i]);
+      pb.k.push_back(k2[i]);
+    }
+    Outcome o = run(m, c, pb);
+    if (!o.error.empty())
+    {
+      out.tok(o.error);
+      return;
+    }
+    const auto& res = o.results[0];
+    out.tok(state_name(res.state_));
+    out.tok("NOTE_steps=" + std::to_string(res.stats_.accepted_));
+    if (res.state_ != micm::SolverState::Converged)
+      return;
+    double worst = 0;
+    for (std::size_t i = 0; i < pb.ncells; ++i)
+    {
+      long double K1 = k1[i], K2 = k2[i], A0 = a0[i], t = pb.dt;
+      long double ea, eb, ec;
+#ifdef KIND_BE
+      // the step sizes: h_start (or the whole interval), doubled after two successes, clipped to the remainder
+      long double H = pb.h_start == 0.0 ? t : std::min<long double>(pb.h_start, t), now = 0;
+      long double A = A0, B = 0, C = 0;
+      std::size_t succ = 0;
+      while (now < t)
+      {
+        // (I - H J) y_new = y   for J = [[-k1,0,0],[k1,-k2,0],[0,k2,0]]
+        long double An = A / (1 + H * K1);
+        long double Bn = (B + H * K1 * An) / (1 + H * K2);
+        long double Cn = C + H * K2 * Bn;
+        A = An; B = Bn; C = Cn;
+        now += H;
+        if (++succ >= 2)
+        {
+          succ = 0;
+          H *= 2;
+        }
+        H = std::min(H, t - now);
+      }
+      ea = A; eb = B; ec = C;
+      const long double allow_factor = 1.0e4L;   // Newton on a linear problem is exact up to the convergence test
+#else
+      ea = A0 * std::exp(-K1 * t);
+      eb = A0 * K1 / (K2 - K1) * (std::exp(-K1 * t) - std::exp(-K2 * t));
+      ec = A0 - ea - eb;
+      const long double allow_factor = 10.0L + 1.0L * (long double)res.stats_.accepted_;
+#endif
+      const long double exact[3] = { ea, eb, ec };
+      for (int sp = 0; sp < 3; ++sp)
+      {
+        long double got = o.y[i * 3 + sp];
+        long double scale = (long double)atol + (long double)pb.rtol * std::fabs(exact[sp]);
+#ifdef KIND_BE
+        scale = 1.0e-16L * (1 + std::fabs(exact[sp])) + 1e-300L;   // rounding only: 1e4 * 1e-16 relative
+#endif
+        double ratio = (double)(std::fabs(got - exact[sp]) / scale / allow_factor);
+        if (ratio > worst)
+          worst = ratio;
+      }
+    }
+    char buf[64];
+    std::snprintf(buf, sizeof buf, "NOTE_worst_error_over_allowance=%.3g", worst);
+    out.tok(buf);
+    if (!(worst <= 1.0))
+    {
+#ifdef KIND_BE
+      out.tok("ORACLE_BACKWARD_EULER_NOT_THE_IMPLICIT_EULER_MAP");
+#else
+      out.tok("ORACLE_ERROR_EXCEEDS_TOLERANCE_PER_ACCEPTED_STEP");
+#endif
+    }
+  }
+
   inline int main_impl(const char* fam)
   {
     return vio::run({ { fam,
@@ -867,6 +1047,8 @@ namespace simpl
                             scenario_cells(tk, out);
                           else if (sc == "reuse")
                             scenario_reuse(tk, out);
+                          else if (sc == "acc")
+                            scenario_acc(tk, out);
                           else
                             out.tok("UNKNOWN_SCENARIO");
                         } } });
